@@ -196,7 +196,10 @@ static bool equals_model(const L& l, usize n, const int* vals)
   return it == &l.endItem && (n == 0) == l.isEmpty();
 }
 
-#define NV_LIST_INPUTS() NV_INPUT(usize, n); NV_INPUT_ARR(int, vals, 3); NV_ASSUME(n <= 3)
+#ifndef NV_BK
+#define NV_BK 3
+#endif
+#define NV_LIST_INPUTS() NV_INPUT(usize, n); NV_INPUT_ARR(int, vals, 3); NV_ASSUME(n <= NV_BK)
 
 void h_b_copy()
 {
@@ -216,7 +219,7 @@ void h_b_copy()
 void h_b_assign()
 {
   NV_LIST_INPUTS();
-  NV_INPUT(usize, m); NV_INPUT_ARR(int, w, 3); NV_INPUT(bool, self); NV_ASSUME(m <= 3);
+  NV_INPUT(usize, m); NV_INPUT_ARR(int, w, 3); NV_INPUT(bool, self); NV_ASSUME(m <= NV_BK);
 #ifdef NV_ALIAS
   NV_ASSUME(self == (NV_ALIAS != 0));
 #endif
